@@ -7,7 +7,7 @@ import numpy as np
 from . import core, tlc
 from .session import _flatten
 
-MAGNITUDES = (40, 70, 110, 240, 480, 900)
+MAGNITUDES = (20, 40, 70, 110, 240, 480, 900)
 MARGIN = 40
 
 
@@ -61,26 +61,31 @@ def run_units(chk, prop, tokens, part='units'):
         tlc.cleanup(res.workdir)
     if chk.tier == 'quick':
         calls = [c for c in calls if c['extreme']]
-    calls.sort(key=lambda c: (c['token'], c['exp']))
+    calls.sort(key=lambda c: (c['token'], c['prec'], c['exp']))
     ns = _ns()
-    data = _data()
+    data = {'double': _data()}
+    # the same records stored in single precision (float32 / complex64)
+    data['single'] = {k: v.astype(np.complex64 if np.iscomplexobj(v) else np.float32) for k, v in data['double'].items()}
     refs = {}
     for c in calls:
         ex, degs, _ = tokens[c['token'] - 1]
-        if c['token'] not in refs:
-            refs[c['token']] = _eval(ex, ns, data, 1.0)
-        ref = refs[c['token']]
+        if (c['token'], c['prec']) not in refs:
+            refs[(c['token'], c['prec'])] = _eval(ex, ns, data[c['prec']], 1.0)
+        ref = refs[(c['token'], c['prec'])]
+        if isinstance(ref, Exception) and c['prec'] == 'single':
+            chk.skip('units: the token refuses single precision samples', 1)
+            continue
         if isinstance(ref, Exception):
             raise core.MachineryError('units token `%s` raises on the unscaled record: %r' % (ex, ref))
         if len(degs) != len(ref):
             raise core.MachineryError('units token `%s` has %d outputs, %d degrees declared' % (ex, len(ref), len(degs)))
         e = c['exp']
-        got = _eval(ex, ns, data, 2.0 ** e)
+        got = _eval(ex, ns, data[c['prec']], 2.0 ** e)
         chk.evaluations += 1
         fn = ex.split('(')[0]
-        case = {'token': ex, 'exponent': e}
+        case = {'token': ex, 'exponent': e, 'precision': c['prec']}
         if isinstance(got, Exception):
-            chk.violation('%s:units:%s:raises' % (prop, fn), '`%s` raises %r when the unit is c = 2^%d; with c = 1 it returns' % (ex, got, e), case)
+            chk.violation('%s:units:%s:raises' % (prop, fn), '`%s` (%s precision samples) raises %r when the unit is c = 2^%d; with c = 1 it returns' % (ex, c['prec'], got, e), case)
             continue
         bad = None
         if len(got) != len(ref):
@@ -100,7 +105,7 @@ def run_units(chk, prop, tokens, part='units'):
                     break
         if bad:
             chk.violation('%s:units:%s' % (prop, fn),
-                          '`%s` with the unit c = 2^%d: %s is not c^degree times the result for c = 1' % (ex, e, bad), case)
+                          '`%s` (%s precision samples) with the unit c = 2^%d: %s is not c^degree times the result for c = 1' % (ex, c['prec'], e, bad), case)
     chk.replayed += len(calls)
     chk.count(part, 'calls', len(calls))
     chk.count(part, 'tokens', len(tokens))
@@ -127,7 +132,7 @@ TOKENS = {
     'C13': [("sp.arburg(c * X, 4)", (0, 2, 0), 2), ("sp.arburg(c * Z, 6)", (0, 2, 0), 2), ("sp.arburg(c * X, 10, 'AIC')", (0, 2, 0), 2),
             ("sp.arburg(c * X, 10, 'MDL')", (0, 2, 0), 2), ("sp.pburg(c * Z, 4, NFFT=32).psd", (2,), 2)],
     'C14': [("sp.arcovar(c * Z, 4)", (0, 2), 2), ("sp.arcovar_marple(c * Z, 4)[:2]", (0, 2), 4), ("sp.modcovar(c * X, 4)", (0, 2), 2),
-            ("sp.modcovar_marple(c * Z, 4)[:2]", (0, 2), 4), ("sp.pcovar(c * X, 3, NFFT=32).psd", (2,), 2), ("sp.pmodcovar(c * Z, 3, NFFT=32).psd", (2,), 2)],
+            ("sp.modcovar_marple(c * Z, 4)[:2]", (0, 2), 2), ("sp.pcovar(c * X, 3, NFFT=32).psd", (2,), 2), ("sp.pmodcovar(c * Z, 3, NFFT=32).psd", (2,), 2)],
     'C15': [("sp.arma_estimate(c * X, 3, 3, 12)", (0, 0, 2), 8), ("sp.arma_estimate(c * Z, 2, 2, 10)", (0, 0, 2), 8),
             ("sp.ma(c * X, 3, 12)", (0, 2), 2), ("sp.pma(c * X, 3, 12, NFFT=32).psd", (2,), 2), ("sp.parma(c * Z, 2, 2, 10, NFFT=32).psd", (2,), 8)],
     'C16': [("sp.minvar(c * X, 4, NFFT=32)[0]", (2,), 2), ("sp.minvar(c * Z, 5, NFFT=33)[0]", (2,), 2), ("sp.pminvar(c * Z, 4, NFFT=32).psd", (2,), 2)],
